@@ -1018,33 +1018,10 @@ def run(ctx):
     used = set()
     per_rule = {}
     by_key = {}
-    present = {s.key() for s, _, _ in cl}
-    # rows whose own site is gone: the code may have moved to another function (helper extracted / folded, closure made
-    # a named fn); such a row can vouch for an identical construct (same kind, same operand provenance, same guards)
-    free_rows = {}
-    for k, row in table.items():
-        if k not in present:
-            free_rows.setdefault((row["kind"], re.sub(r"%\d+", "%", row["shape"])), []).append(row)
-    for s, rule, why_ in cl:
+    for s, rule, why_, used_key in resolve_with_table(f, cl, table):
         key = s.key()
-        row = table.get(key)
-        moved = False
-        if rule is None and row is None and free_rows.get((s.kind, re.sub(r"%\d+", "%", s.shape))):
-            row = free_rows[(s.kind, re.sub(r"%\d+", "%", s.shape))][0]
-            moved = True
-        if rule is None and row is not None:
-            need = row.get("guards") or []
-            have = site_guards(f, s) if need else []
-            miss = guards_missing(need, have)
-            for rg in row.get("remote") or []:
-                okr, whyr = remote_guard_holds(f, rg["fn"], rg["guard"])
-                if not okr:
-                    miss.append("%s: %s" % (short(rg["fn"]), whyr))
-            if miss:
-                why_ = "tabled, but the guard(s) its reason relies on no longer hold: %s" % miss
-            else:
-                rule, why_ = "P2-table", row["reason"] + (" [row of %s: the construct moved]" % short(row["fn"]) if moved else "")
-                used.add(key)
+        if used_key is not None:
+            used.add(used_key)
         per_rule[rule or "unresolved"] = per_rule.get(rule or "unresolved", 0) + 1
         by_key.setdefault(key, []).append((s, rule, why_))
     for key, lst in by_key.items():
@@ -1161,6 +1138,81 @@ def load_loop_table():
 # guards a tabled reason leans on
 # ======================================================================================
 dominating_guards = K.dominating_guards
+
+
+_CLASS_RANGES = {"is_ascii_digit": (48, 57), "is_ascii_uppercase": (65, 90), "is_ascii_lowercase": (97, 122)}
+
+
+def implied_literals(guards):
+    """Literals that follow from a guard by the documented meaning of a std predicate: `c.is_ascii_digit()` is
+    `48 <= c && c <= 57` (same vocabulary as a range pattern `'0'..='9'`)."""
+    out = []
+    for g in guards:
+        m = re.match(r"^(?:\w+::)*(is_ascii_\w+)\((.*)\)$", g)
+        if m and m.group(1) in _CLASS_RANGES:
+            lo, hi = _CLASS_RANGES[m.group(1)]
+            out.append("%d <= %s" % (lo, m.group(2)))
+            out.append("%s <= %d" % (m.group(2), hi))
+    return out
+
+
+def leaf_signature(shape):
+    """What a construct computes from, whatever the producers in between are called: the integer constants and the
+    input roots (self paths, positional parameters, captures) of its operands."""
+    consts = sorted(re.findall(r"(?<![\w.#%$:])\d+(?![\w.]|\s*:)", shape))
+    roots = sorted(set(re.findall(r"(?<![\w.:])(?:self(?:\.\w+)*|%\d+|\^\w*)", shape)))
+    return (tuple(consts), tuple(roots))
+
+
+def resolve_with_table(f, cl, table):
+    """Table discharge of the sites no P0/P1 rule discharges.  A row vouches for
+       (1) the construct it was written for (same function, kind, operand provenance);
+       (2) an identical construct elsewhere, when its own site is gone (code moved: helper extracted / folded);
+       (3) a re-spelt construct in the same function, when its own site is gone: same kind, same integer constants and
+           same input roots (`find_map(enumerate(x))` → `position(x)`), one row per site;
+    always provided the guard witnesses of the row still hold at the site.  -> [(site, rule, why, table key used)]"""
+    present = {s.key() for s, _, _ in cl}
+    free_rows = {}
+    free_fn = {}
+    for k, row in table.items():
+        if k not in present:
+            free_rows.setdefault((row["kind"], re.sub(r"%\d+", "%", row["shape"])), []).append(row)
+            free_fn.setdefault((row["fn"], row["kind"], leaf_signature(row["shape"])), []).append((k, row))
+    taken = set()
+    out = []
+    for s, rule, why_ in cl:
+        key = s.key()
+        row = table.get(key)
+        how = ""
+        used = key
+        if rule is None and row is None and free_rows.get((s.kind, re.sub(r"%\d+", "%", s.shape))):
+            row = free_rows[(s.kind, re.sub(r"%\d+", "%", s.shape))][0]
+            how = " [row of %s: the construct moved]" % short(row["fn"])
+        if rule is None and row is None:
+            for k2, r2 in free_fn.get((s.fn, s.kind, leaf_signature(s.shape)), []):
+                if k2 not in taken:
+                    taken.add(k2)
+                    row, used = r2, k2
+                    how = " [row written for `%s`: same constants and inputs, re-spelt]" % r2["shape"][:80]
+                    break
+        if rule is None and row is not None:
+            need = row.get("guards") or []
+            have = site_guards(f, s) if need else []
+            have = have + implied_literals(have)
+            miss = guards_missing(need, have)
+            for rg in row.get("remote") or []:
+                okr, whyr = remote_guard_holds(f, rg["fn"], rg["guard"])
+                if not okr:
+                    miss.append("%s: %s" % (short(rg["fn"]), whyr))
+            if miss:
+                why_ = "tabled, but the guard(s) its reason relies on no longer hold: %s" % miss
+                used = None
+            else:
+                rule, why_ = "P2-table", row["reason"] + how
+        else:
+            used = None
+        out.append((s, rule, why_, used))
+    return out
 
 
 def site_guards(f, site):
@@ -1289,31 +1341,8 @@ def check_reachable_sites(ctx, f, entries, what, floor_entries, floor_sites):
     ctx.floor("R-PANIC", "entry points: %s" % what, len(entries), floor_entries)
     ctx.floor("R-PANIC", "panic-capable sites reachable from them", len(sites), floor_sites)
     by_key = {}
-    all_present = {s_.key() for s_, _, _ in cl}
-    free_rows = {}
-    for k, row in table.items():
-        if k not in all_present:
-            free_rows.setdefault((row["kind"], re.sub(r"%\d+", "%", row["shape"])), []).append(row)
-    for s, rule, why_ in cl:
-        key = s.key()
-        row = table.get(key)
-        moved = False
-        if rule is None and row is None and free_rows.get((s.kind, re.sub(r"%\d+", "%", s.shape))):
-            row = free_rows[(s.kind, re.sub(r"%\d+", "%", s.shape))][0]
-            moved = True
-        if rule is None and row is not None:
-            need = row.get("guards") or []
-            have = site_guards(f, s) if need else []
-            miss = guards_missing(need, have)
-            for rg in row.get("remote") or []:
-                okr, whyr = remote_guard_holds(f, rg["fn"], rg["guard"])
-                if not okr:
-                    miss.append("%s: %s" % (short(rg["fn"]), whyr))
-            if miss:
-                why_ = "tabled, but the guard(s) its reason relies on no longer hold: %s" % miss
-            else:
-                rule, why_ = "P2-table", row["reason"] + (" [row of %s: the construct moved]" % short(row["fn"]) if moved else "")
-        by_key.setdefault(key, []).append((s, rule, why_))
+    for s, rule, why_, _used in resolve_with_table(f, cl, table):
+        by_key.setdefault(s.key(), []).append((s, rule, why_))
     for key, lst in by_key.items():
         bad = [x for x in lst if x[1] is None]
         s, rule, why_ = (bad or lst)[0]
